@@ -51,7 +51,8 @@ def gen_case(rng, tier, idx):
     cfg = dict(kind=rng.choice(('simple', 'simple', 'plan')), pol=pol, term=sorted(term), max_steps=rng.choice((1, 2, 3, 5, 1000)),
                rel=rng.choice((-1, 0, 1, 2)), nsim=rng.choice((1, 3, 8)), start=start, seed=rng.choice((0, 3, 11)),
                include_abs=rng.random() < 0.5, clip=rng.choice((None, None, 0.0, -1.0)),
-               override=sorted(rng.sample(COMPONENTS, rng.randint(0, 4))), optname=rng.choice(('o', 'opt-1', 'go')))
+               override=sorted(rng.sample(COMPONENTS, rng.randint(0, 4))), optname=rng.choice(('o', 'opt-1', 'go')),
+               include_mdp_actions=rng.random() < 0.4, alias=rng.choice(('fresh', 'cached', 'shared')), ask_actions=rng.random() < 0.6)
     plain = idx % 4 == 0
     sched = gen_sched(rng, ('P',) if plain else ('P', 'U', 'R'), budget_choices=(None,), coop=False, cap=200000)
     return dict(spec=spec, cfg=cfg, sched=sched)
@@ -64,7 +65,7 @@ def execute(case, script=None):
     ctx = RunCtx(PROP, view)
     ctx.declare_probes('option_raised_must', 'option_returned_must', 'boundary_raised', 'start_terminal',
                        'smdp_call_raised', 'smdp_dist_checked', 'primitive_checked', 'static_override_sets', 'plan_option',
-                       'subtask_plan_checked', 'f7_before', 'f7_boundary', 'f7_after', 'cross_call_checked')
+                       'subtask_plan_checked', 'f7_before', 'f7_boundary', 'f7_after', 'cross_call_checked', 'smdp_actions_asked')
     sched = make_scheduler(case, script, ctx)
     try:
         return _execute(view, case['cfg'], ctx, sched)
@@ -80,7 +81,7 @@ def _execute(view, cfg, ctx, sched):
     from msdm.core.exceptions import AlgorithmException
     from msdm.algorithms.valueiteration import ValueIteration
 
-    mdp = make_mdp(view, ctx)
+    mdp = make_mdp(view, ctx, alias=cfg.get('alias', 'fresh'))
     sk, ak, sid, aid = view.sk, view.ak, view.sid, view.aid
     g = view.gamma
     term = set(cfg['term'])
@@ -216,7 +217,28 @@ def _execute(view, cfg, ctx, sched):
 
     # ------------------------------------------------------------ semi-MDP
     nsim = cfg['nsim']
-    smdp = sm.SemiMarkovDecisionProcess(mdp=mdp, options=[o], n_option_simulations=nsim, seed=cfg['seed'])
+    smdp = sm.SemiMarkovDecisionProcess(mdp=mdp, options=[o], n_option_simulations=nsim, seed=cfg['seed'],
+                                        include_mdp_actions=bool(cfg.get('include_mdp_actions')))
+
+    def ask_actions(tag):
+        # the semi-MDP's action set at a state: the base actions (when included) followed by the options available there;
+        # asking for it must leave the base MDP as it was
+        try:
+            got = list(smdp.actions(sk[start]))
+        except (Violation, Inconclusive):
+            raise
+        except Exception as e:
+            raise Violation('exception', f"{tag}: SemiMarkovDecisionProcess.actions raised {type(e).__name__}: {e}")
+        exp = ([ak[a] for a in view.A[start]] if cfg.get('include_mdp_actions') else []) + [o]
+        ctx.check(len(got) == len(exp) and all((x is y) or (not isinstance(y, Opt) and x == y) for x, y in zip(got, exp)), 'semimdp-actions',
+                  lambda: f"{tag}: semi-MDP actions at {start} are {got}, expected the base actions {view.A[start] if cfg.get('include_mdp_actions') else []} then the option")
+        base = list(mdp.actions(sk[start]))
+        ctx.check(base == [ak[a] for a in view.A[start]], 'base-preserved',
+                  lambda: f"{tag}: after asking the semi-MDP for its actions the base MDP's actions at {start} are {base}, they were {[ak[a] for a in view.A[start]]}")
+        ctx.probe('smdp_actions_asked')
+    if cfg.get('ask_actions'):
+        ask_actions('before the outcome queries')
+        ask_actions('asked twice')
     proxy = RandomProxy(sched)
 
     def smdp_call(fn, tag):
@@ -301,6 +323,8 @@ def _execute(view, cfg, ctx, sched):
     if d is not None:
         ref = sum(G for (e, n, G, _) in outs) / nsim
         ctx.check(close(float(d), ref, 1e-9, 1e-9), 'semimdp-empirical', lambda: f"expected_cumulative_reward {float(d)!r} != mean over its own simulations {ref!r}")
+    if cfg.get('ask_actions'):
+        ask_actions('after the outcome queries')
     # primitive action
     if start not in view.absorbing or True:
         a = view.A[start][0]
